@@ -7,7 +7,7 @@
     decide the combinatorial facts about the tables (which bytes survive a round trip through a hop,
     which bytes an HMAC check at a given position reads) by computation. *)
 From Coq Require Import ZArith List Bool Lia.
-Require Import LdkV.Crypto.Bytes LdkV.Model.OnionFail LdkV.Proofs.C14.
+Require Import LdkV.Crypto.Bytes LdkV.Model.OnionFail LdkV.Proofs.C14 LdkV.Proofs.C14Fail.
 Import ListNotations.
 Open Scope nat_scope.
 
@@ -509,7 +509,7 @@ Section Hold.
     destruct (attr_update_spec (shift_right e) msg k t Hs) as (_ & Uh & Um).
     destruct tbl_lengths as (L1 & L2 & L3 & L4).
     destruct La as [La1 La2], He as [He1 He2].
-    split; [now apply shift_left_ok_len|now split| |].
+    split; [apply shift_left_ok_len; split; assumption|split; assumption| |].
     - intros i Hi. cbn [nextP fst nextV] in Hi.
       apply nth_map_seq_true in Hi as [Hi1 Hi]. apply andb_true_iff in Hi as [Hv1 Hv].
       unfold V1h in Hv1. apply nth_map_seq_true in Hv1 as [_ Hv1]. cbv zeta in Hv1.
@@ -620,5 +620,186 @@ Section Hold.
       + now rewrite Nat.min_r by exact H.
     - intros _. assert (HE : ok_len E) by (eapply fulfill_at_sender_ok; apply fulfill_at_sender_cons).
       split; try exact HE; apply agree_on_refl.
+  Qed.
+
+  (** ** Failed payments *)
+
+  Notation crypt_data := (crypt_data ks).
+  Notation crypt_failure_packet := (crypt_failure_packet ks).
+  Notation failure_plain := (failure_plain hmac).
+  Notation build_failure_packet := (build_failure_packet ks hmac).
+  Notation wrap_failure := (wrap_failure ks hmac).
+  Notation failure_at_sender := (failure_at_sender ks hmac).
+  Notation failure_loop := (failure_loop ks hmac).
+  Notation attribution_step := (attribution_step hmac).
+  Notation process_onion_failure := (process_onion_failure ks hmac).
+  Notation wrapped := (wrapped ks).
+  Notation no_spurious_match := (no_spurious_match ks hmac).
+
+  (** the failure message is small enough for the attribution data to fit into [update_fail_htlc] *)
+  Definition fits_wire (data_len : nat) : Prop := (Z.of_nat data_len <= 64567)%Z.
+
+  Lemma wire_len_ok p a : e_attr p = Some a -> ok_len a -> fits_wire (length (e_data p)) ->
+    (LN_MAX_MSG_LEN <? Z.of_nat (update_fail_htlc_wire_len p))%Z = false.
+  Proof.
+    intros Ha [Hh Hm] Hf. unfold update_fail_htlc_wire_len, attr_bytes. rewrite Ha, app_length, Hh, Hm.
+    unfold fits_wire in Hf. unfold LN_MAX_MSG_LEN, NH, NM. apply Z.ltb_ge. lia.
+  Qed.
+
+  Lemma wrap_failure_attr k t P e :
+    e_attr P = Some e -> ok_len e -> fits_wire (length (e_data P)) ->
+    e_attr (wrap_failure k t P) = Some (attr_crypt k (attr_update (shift_right e) (e_data P) k t)).
+  Proof.
+    intros He Hok Hf. unfold OnionFail.wrap_failure, OnionFail.process_failure_packet.
+    set (p2 := update_attribution_data hmac (mk_err (e_data P) (option_map shift_right (e_attr P))) k t).
+    assert (Hp2 : p2 = mk_err (e_data P) (Some (attr_update (shift_right e) (e_data P) k t))).
+    { unfold p2, update_attribution_data. cbn [e_attr e_data]. now rewrite He. }
+    rewrite (wire_len_ok p2 (attr_update (shift_right e) (e_data P) k t)).
+    - rewrite Hp2. reflexivity.
+    - now rewrite Hp2.
+    - apply attr_update_spec. now apply shift_right_ok_len.
+    - now rewrite Hp2.
+  Qed.
+
+  Lemma build_failure_attr k code d t :
+    e_attr (build_failure_packet k code d t) =
+    Some (attr_crypt k (attr_update attr_new (failure_plain k code d DEFAULT_MIN_FAILURE_PACKET_LEN) k t)).
+  Proof. reflexivity. Qed.
+
+  Lemma failure_at_sender_cons kh rest ki code d hi :
+    failure_at_sender (kh :: rest) ki code d hi = wrap_failure (fst kh) (snd kh) (failure_at_sender rest ki code d hi).
+  Proof. reflexivity. Qed.
+
+  Lemma failure_at_sender_len before ki code d hi :
+    length (e_data (failure_at_sender before ki code d hi)) = length (failure_plain ki code d DEFAULT_MIN_FAILURE_PACKET_LEN).
+  Proof.
+    rewrite (failure_at_sender_data ks hmac), (wrapped_length ks ks_length). apply (crypt_data_length ks ks_length).
+  Qed.
+
+  Lemma failure_at_sender_attr_ok before ki code d hi :
+    fits_wire (length (failure_plain ki code d DEFAULT_MIN_FAILURE_PACKET_LEN)) ->
+    exists E, e_attr (failure_at_sender before ki code d hi) = Some E /\ ok_len E.
+  Proof.
+    intros Hf. induction before as [|kh rest IH].
+    - eexists. split; [apply build_failure_attr|]. apply attr_crypt_ok_len. apply attr_update_spec. apply attr_new_ok_len.
+    - destruct IH as (e & He & Hok). eexists. split.
+      + rewrite failure_at_sender_cons. apply wrap_failure_attr; [exact He|exact Hok|].
+        now rewrite failure_at_sender_len.
+      + apply attr_crypt_ok_len. apply attr_update_spec. now apply shift_right_ok_len.
+  Qed.
+
+  Lemma failure_loop_holds ki after code d hi :
+    (0 <= code < 65536)%Z -> (2 + Z.of_nat (length d) < 65535)%Z -> (0 <= hi < 2 ^ 32)%Z ->
+    let plain := failure_plain ki code d DEFAULT_MIN_FAILURE_PACKET_LEN in
+    fits_wire (length plain) ->
+    forall before idx cnt A E ht,
+    cnt <= MAX_HOPS ->
+    Forall (fun kh => (0 <= snd kh < 2 ^ 32)%Z) before ->
+    no_spurious_match (map fst before) (crypt_data ki plain) ->
+    e_attr (failure_at_sender before ki code d hi) = Some E ->
+    (idx < cnt -> agree (fst (Vat idx)) (snd (Vat idx)) A E) ->
+    snd (failure_loop (map fst before ++ ki :: after) idx cnt
+           (mk_err (e_data (failure_at_sender before ki code d hi)) (Some A)) false ht)
+    = ht ++ firstn (cnt - idx) (map snd before ++ [hi]).
+  Proof.
+    intros Hc Hd Hhi plain Hfit.
+    induction before as [|[k t] rest IH]; intros idx cnt A E ht Hcnt Hr Hns HE Hag.
+    - (* the failing hop *)
+      cbn [map app OnionFail.failure_loop].
+      change (failure_at_sender [] ki code d hi) with (build_failure_packet ki code d hi) in HE.
+      rewrite build_failure_attr in HE. injection HE as <-.
+      rewrite (failure_at_sender_data ks hmac). cbn [map C14Fail.wrapped fold_right].
+      unfold OnionFail.crypt_failure_packet. cbn [e_data e_attr option_map].
+      rewrite !(crypt_data_involutive ks ks_length). fold plain.
+      set (st := attribution_step ki idx cnt (mk_err plain (Some (attr_crypt ki A))) false ht).
+      assert (Hst : e_data (fst (fst st)) = plain /\ snd st = ht ++ firstn (cnt - idx) [hi]).
+      { unfold st, OnionFail.attribution_step. cbn [e_attr e_data].
+        destruct (idx <? cnt) eqn:Elt.
+        - apply Nat.ltb_lt in Elt.
+          destruct (sender_check idx (cnt - idx - 1) A attr_new plain ki hi ltac:(lia) attr_new_ok_len Hhi (Hag Elt)) as [Hv _].
+          rewrite Hv. cbn [fst snd e_data]. split; [reflexivity|].
+          replace (cnt - idx) with (Datatypes.S (cnt - idx - 1)) by lia. cbn [firstn]. now rewrite firstn_nil.
+        - apply Nat.ltb_ge in Elt. cbn [fst snd e_data]. split; [reflexivity|].
+          replace (cnt - idx) with 0 by lia. cbn [firstn]. now rewrite app_nil_r. }
+      destruct Hst as [Hst1 Hst2]. rewrite Hst1. unfold plain.
+      rewrite (failure_plain_hmac_ok hmac hmac_length), bytes_eqb_refl. cbn [negb].
+      rewrite (read_failure_plain hmac hmac_length) by (try assumption; unfold DEFAULT_MIN_FAILURE_PACKET_LEN; lia).
+      unfold be16 at 1. cbn [app snd]. exact Hst2.
+    - (* a hop that passes the failure on *)
+      cbn [map app fst snd OnionFail.failure_loop] in *.
+      destruct Hns as [Hk Hns]. apply Forall_cons_iff in Hr as [Ht Hr]. cbn [snd] in Ht.
+      destruct (failure_at_sender_attr_ok rest ki code d hi Hfit) as (e & He & Hoke).
+      set (P' := failure_at_sender rest ki code d hi) in *.
+      rewrite failure_at_sender_cons in HE |- *. cbn [fst snd] in *. fold P' in HE |- *.
+      rewrite (wrap_failure_attr k t P' e He Hoke) in HE by (unfold P'; now rewrite failure_at_sender_len).
+      injection HE as <-.
+      unfold OnionFail.crypt_failure_packet. cbn [e_data e_attr option_map].
+      rewrite !(wrap_failure_data ks hmac), !(crypt_data_involutive ks ks_length).
+      set (msg := e_data P') in *.
+      set (st := attribution_step k idx cnt (mk_err msg (Some (attr_crypt k A))) false ht).
+      assert (Hmsg : msg = wrapped (map fst rest) (crypt_data ki plain)).
+      { unfold msg, P'. apply (failure_at_sender_data ks hmac). }
+      assert (Hst : exists A', fst st = (mk_err msg (Some A'), false) /\ snd st = ht ++ firstn (cnt - idx) [t] /\
+                     (Datatypes.S idx < cnt -> agree (fst (Vat (Datatypes.S idx))) (snd (Vat (Datatypes.S idx))) A' e)).
+      { unfold st, OnionFail.attribution_step. cbn [e_attr e_data].
+        destruct (idx <? cnt) eqn:Elt.
+        - apply Nat.ltb_lt in Elt.
+          destruct (sender_check idx (cnt - idx - 1) A (shift_right e) msg k t ltac:(lia)
+                      (shift_right_ok_len e Hoke) Ht (Hag Elt)) as [Hv Hag'].
+          rewrite Hv. eexists. cbn [fst snd]. split; [reflexivity|]. split.
+          + replace (cnt - idx) with (Datatypes.S (cnt - idx - 1)) by lia. cbn [firstn]. now rewrite firstn_nil.
+          + intros Hlt. rewrite Vat_S by lia. eapply undo_hop; [exact Hoke|exact Hag'].
+        - apply Nat.ltb_ge in Elt. eexists. cbn [fst snd]. split; [reflexivity|]. split.
+          + replace (cnt - idx) with 0 by lia. cbn [firstn]. now rewrite app_nil_r.
+          + intros Hlt. lia. }
+      destruct Hst as (A' & Hst1 & Hst2 & Hst3). rewrite Hst1, Hst2. cbn [fst snd e_data].
+      rewrite Hmsg.
+      destruct (bytes_eqb (hmac (fk_um k) (skipn 32 (wrapped (map fst rest) (crypt_data ki plain))))
+                          (firstn 32 (wrapped (map fst rest) (crypt_data ki plain)))) eqn:Eb.
+      { apply bytes_eqb_eq in Eb. contradiction. }
+      cbn [negb]. rewrite <- Hmsg. subst msg. subst P'.
+      rewrite (IH (Datatypes.S idx) cnt A' e (ht ++ firstn (cnt - idx) [t]) Hcnt Hr Hns He Hst3).
+      rewrite <- app_assoc. f_equal.
+      destruct (Nat.lt_ge_cases idx cnt) as [Hlt|Hge].
+      + replace (cnt - idx) with (Datatypes.S (cnt - Datatypes.S idx)) by lia. cbn [firstn app]. now rewrite firstn_nil.
+      + replace (cnt - idx) with 0 by lia. replace (cnt - Datatypes.S idx) with 0 by lia. reflexivity.
+  Qed.
+
+  (** C14, hold times of a failed payment.  The failing hop [length before] and every hop before it
+      put their hold times into the attribution data of the failure; the sender reads the hold times
+      of (the first [MAX_HOPS] of) the hops up to the failing one, in path order - under the same
+      side condition as attribution itself (no spurious HMAC match before the failing hop). *)
+  Theorem hold_times_failure before ki after code d hi :
+    (0 <= code < 65536)%Z -> (Z.of_nat (length d) <= 64000)%Z -> (0 <= hi < 2 ^ 32)%Z ->
+    Forall (fun kh => (0 <= snd kh < 2 ^ 32)%Z) before ->
+    no_spurious_match (map fst before) (crypt_data ki (failure_plain ki code d DEFAULT_MIN_FAILURE_PACKET_LEN)) ->
+    snd (process_onion_failure (map fst before ++ ki :: after) (failure_at_sender before ki code d hi))
+    = firstn MAX_HOPS (map snd before ++ [hi]).
+  Proof.
+    intros Hc Hd Hhi Hr Hns.
+    assert (Hfit : fits_wire (length (failure_plain ki code d DEFAULT_MIN_FAILURE_PACKET_LEN))).
+    { unfold fits_wire, OnionFail.failure_plain, failure_body, DEFAULT_MIN_FAILURE_PACKET_LEN.
+      rewrite !app_length, hmac_length, !length_be16, length_zeros. lia. }
+    destruct (failure_at_sender_attr_ok before ki code d hi Hfit) as (E & HE & HokE).
+    unfold OnionFail.process_onion_failure.
+    destruct (length (e_data (failure_at_sender before ki code d hi)) <? 32) eqn:E32.
+    { apply Nat.ltb_lt in E32. rewrite failure_at_sender_len in E32.
+      pose proof (failure_plain_length hmac hmac_length ki code d DEFAULT_MIN_FAILURE_PACKET_LEN). lia. }
+    set (cnt := Nat.min (length (map fst before ++ ki :: after)) MAX_HOPS).
+    assert (Hp : failure_at_sender before ki code d hi =
+                 mk_err (e_data (failure_at_sender before ki code d hi)) (Some E)).
+    { revert HE. destruct (failure_at_sender before ki code d hi) as [dd aa]. cbn [e_attr e_data]. now intros ->. }
+    rewrite Hp.
+    rewrite (failure_loop_holds ki after code d hi Hc ltac:(lia) Hhi Hfit before 0 cnt E E []
+               ltac:(apply Nat.le_min_r) Hr Hns HE).
+    - cbn [app]. rewrite Nat.sub_0_r. unfold cnt. rewrite !app_length, map_length. cbn [length].
+      set (l := map snd before ++ [hi]).
+      assert (Hl : length l = length before + 1) by (unfold l; rewrite app_length, map_length; reflexivity).
+      destruct (Nat.le_ge_cases (length before + Datatypes.S (length after)) MAX_HOPS) as [H|H].
+      + rewrite Nat.min_l by exact H. rewrite (firstn_all2 (n := MAX_HOPS)) by lia.
+        (* more attributable hops than hold times: both are the whole list *)
+        apply firstn_all2. lia.
+      + rewrite Nat.min_r by exact H. reflexivity.
+    - intros _. split; try exact HokE; apply agree_on_refl.
   Qed.
 End Hold.
